@@ -39,6 +39,18 @@ def generate(rng, tier):
         az = rng.choice([(0, 0), (5, 30), (-3, -30)])
         cfg = "2 0 0 %d %d 0 1 0" % az
         r = rng.random()
+        if i % 25 == 7:
+            # %s alone determines the instant: strptime must invert it, at the epoch itself (the text "0"), next to it,
+            # before it (negative counts) and anywhere else
+            which = i // 25 % 5
+            if which < 3 and md == "G":
+                pe = ["C 1970 1 1 S 0 0 0 0 0", "O 1970 1 S 5 30 0 5 30", "W 1970 1 3 S 19 0 0 -5 0", "C 1970 1 1 S 0 0 1 0 0",
+                      "C 1969 12 31 S 23 59 59 0 0", "C 1970 1 1 S 0 0 10 0 0"][i // 125 % 6]
+            else:
+                pe = p if "/" not in p else "C 2000 1 1 S 0 0 0 0 0"
+            cases.append(Case(["strfp %s %s %s %s" % (md, cfg, pe, enc("%s"))], ["inverse-unix", "mode:" + md, "rep:" + pe[0]],
+                              md=md, p=pe, fmt="%s", fam="I", az=az))
+            continue
         if r < 0.45:
             k = rng.randint(1, 6)
             fmt = "".join(rng.choice(LITS) + rng.choice(SUPPORTED) for _ in range(k)) + rng.choice(LITS)
@@ -99,6 +111,9 @@ def judge(c):
     res = []
     from props.c07 import close
     for l, a, b in zip(c.lines, I, M):
+        if b.endswith("; UNMODELLED"):
+            # strptime of %s is outside the model (float() of the group): only the printed text is compared
+            a, b = a.split(" ; ")[0], b.split(" ; ")[0]
         if not close(a, b) and b != "UNMODELLED":
             res.append(("disagree", "%s: implementation %r, model %r" % (l, a, b)))
     p, fmt = c.meta["p"], c.meta["fmt"]
